@@ -22,6 +22,7 @@ type Env struct {
 	visKey   string
 	loopPre  *State // loop invariants: the state in which the loop was entered (before(e))
 	iterPre  *State // loop invariants: the state at the start of the current iteration (prev(e))
+	iterVars map[string]Val // the loop-carried variables as they were at the start of the current iteration
 	callSite bool   // a callee's postcondition evaluated at a call site: clauses over the callee's inner states (after()) are skipped
 }
 
@@ -261,6 +262,9 @@ func (e *Env) ident(name string) Val {
 	// plain locals by their source name (last value bound so far)
 	for c := e.fc; c != nil; c = c.parent {
 		if v, ok := c.debugNames[name]; ok && v.tuple == nil {
+			if c.usedLocals != nil {
+				c.usedLocals[name] = true
+			}
 			return v
 		}
 	}
@@ -963,6 +967,16 @@ func (e *Env) call(n *CNode) Val {
 		}
 		n2 := *e
 		n2.state = e.iterPre
+		if e.iterVars != nil {
+			// loop-carried variables: their values at the start of the iteration, not the ones carried along the back edge
+			n2.vars = map[string]Val{}
+			for k, v := range e.vars {
+				n2.vars[k] = v
+			}
+			for k, v := range e.iterVars {
+				n2.vars[k] = v
+			}
+		}
 		return n2.expr(n.Args[0])
 	case "local":
 		// local(x): the current value of the local variable x that lives in memory (e.g. a parameter
